@@ -140,6 +140,8 @@ pub struct PModel {
     pub multi_dim: bool,
     pub has_order: bool,
     pub has_clustering: bool,
+    /// matrix profile the vicinity clustering uses for commutes
+    pub clustering_profile: Option<String>,
     pub has_required_breaks: bool,
     pub has_recharges: bool,
     pub fractional: bool,
@@ -375,6 +377,7 @@ impl PModel {
             multi_dim,
             has_order,
             has_clustering: problem["plan"].get("clustering").is_some(),
+            clustering_profile: problem["plan"].get("clustering").and_then(|c| jstr(&c["profile"], "matrix")).map(|s| s.to_string()),
             has_required_breaks,
             has_recharges,
             fractional,
@@ -411,6 +414,9 @@ pub struct SAct {
     pub end: Option<i64>,
     pub tag: Option<String>,
     pub has_commute: bool,
+    /// (location the commute to the activity starts at, reported distance), (location it returns to, reported distance)
+    pub commute_fwd: Option<(Option<usize>, f64)>,
+    pub commute_bck: Option<(Option<usize>, f64)>,
 }
 
 #[derive(Clone, Debug)]
@@ -494,6 +500,8 @@ impl SSolution {
                         end: tm.and_then(|x| jstr(x, "end")).and_then(parse_time),
                         tag: jstr(a, "jobTag").map(|s| s.to_string()),
                         has_commute: a.get("commute").is_some(),
+                        commute_fwd: a.get("commute").and_then(|c| c.get("forward")).map(|f| (parse_loc(f.get("location")), jf64(f, "distance").unwrap_or(0.0))),
+                        commute_bck: a.get("commute").and_then(|c| c.get("backward")).map(|f| (parse_loc(f.get("location")), jf64(f, "distance").unwrap_or(0.0))),
                     });
                 }
                 stops.push(SStop {
